@@ -25,33 +25,70 @@ use crate::tick_math::*;
 broadcast use crate::authority_pino::ax_qmark_pino;
 //@ tags C15 C04 C08 C18
 //@ assume pinocchio handler shims: `crate::instruction::*::try_from_slice` (Borsh decoding of the instruction data) yields an uninterpreted function of the bytes; load_account_mut::<T> / load_token_program_account::<T> are external stubs: on success the account is owned by the whirlpool program (resp. a token program) and the returned view is the uninterpreted content acct::<T>(info) (their bodies: owner check, discriminator check, unsafe cast); TickArraysMut::load is an external stub recording the loader's checks (writable, owned by the program, whirlpool field == the given key) as ta_ok(info, whirlpool); deref / deref_mut hand out abstract `dyn TickArray`s; Clock::get yields now_unix(); pino_update_tick_array_accounts, pino_ensure_position_has_enough_rent_for_ticks, pino_parse_remaining_accounts, Event::emit are external stubs; the token CPI wrappers are external stubs recording moved(from, to, amount)
-pub struct RefMut<T> { pub v: T }
-impl<T> std::ops::Deref for RefMut<T> { type Target = T; fn deref(&self) -> (r: &T) ensures *r == self.v { &self.v } }
-impl<T> std::ops::DerefMut for RefMut<T> { fn deref_mut(&mut self) -> (r: &mut T) ensures *r == old(self).v, *final(r) == final(self).v { &mut self.v } }
+pub struct RefMut<'a, T> { pub v: T, pub p: core::marker::PhantomData<&'a ()> }
+impl<'a, T> std::ops::Deref for RefMut<'a, T> { type Target = T; fn deref(&self) -> (r: &T) ensures *r == self.v { &self.v } }
+impl<'a, T> std::ops::DerefMut for RefMut<'a, T> { fn deref_mut(&mut self) -> (r: &mut T) ensures *r == old(self).v, *final(r) == final(self).v { &mut self.v } }
 pub assume_specification<T> [std::mem::drop] (_0: T) where T: std::marker::Destruct;
 /// the content of a program-owned account as the loader maps it
 pub uninterp spec fn acct<T>(i: AccountInfo) -> T;
 /// reachable-state facts about stored accounts (assumed of every account the loader accepts): an uninitialized reward slot has zero emissions (C11),
 /// the pool price is positive; a position's bounds are in the protocol range and ordered (C18: enforced when the position was opened)
-pub trait WhirlpoolProgramAccount { spec fn reachable(&self) -> bool; }
-impl WhirlpoolProgramAccount for MemoryMappedWhirlpool {
+pub trait Reachable { spec fn reachable(&self) -> bool; }
+pub trait WhirlpoolProgramAccount: Reachable { const DISCRIMINATOR: [u8; 8]; }
+impl Reachable for MemoryMappedWhirlpool {
     open spec fn reachable(&self) -> bool {
         self.sqrt_price_v() > 0 && price_ok(self.sqrt_price_v() as int) && self.tick_spacing_v() > 0 && forall|k: int| 0 <= k < 3 ==> (!(#[trigger] self.view().reward_infos[k]).is_init() ==> self.view().reward_infos[k].emissions_per_second_x64 == 0)
     }
 }
-impl WhirlpoolProgramAccount for MemoryMappedPosition {
+impl Reachable for MemoryMappedPosition {
     open spec fn reachable(&self) -> bool { tick_ok(self.view().tick_lower_index as int) && tick_ok(self.view().tick_upper_index as int) && self.view().tick_lower_index < self.view().tick_upper_index }
 }
+//@ item pinocchio/state/whirlpool/whirlpool.rs /^impl WhirlpoolProgramAccount for MemoryMappedWhirlpool \{/
+//@ item pinocchio/state/whirlpool/position.rs /^impl WhirlpoolProgramAccount for MemoryMappedPosition \{/
+// ------------------------------------------------------------------ the loaders (C15): owner-program, discriminator, initialised-flag, multisig and account-type checks are real code
+//@ assume loader shims: AccountInfo::try_borrow_data hands out the account's bytes as a slice; `array_ref![bytes, 0, 8] != discriminator` is the comparison of the first eight bytes (disc_ne); the final unsafe casts (load_account_mut_unchecked: bytes -> &mut T; TokenProgramAccountWithExtensions::new + Deref: bytes -> &T) are external stubs that yield the uninterpreted content acct::<T>(info) together with the reachable-state facts
+pub trait TokenProgramAccount { const BASE_STATE_LEN: usize; const IS_INITIALIZED_OFFSET: usize; const ACCOUNT_TYPE: u8; }
+//@ item pinocchio/state/token/account.rs /^impl TokenProgramAccount for MemoryMappedTokenAccount \{/
 #[verifier::external_body]
-pub fn load_account_mut<T: WhirlpoolProgramAccount>(account_info: &AccountInfo) -> (r: Result<RefMut<T>>)
-    ensures r matches Ok(x) ==> x.v == acct::<T>(*account_info) && account_info.owner_k == address::WHIRLPOOL_PROGRAM_ID && x.v.reachable()
+pub fn disc_ne(bytes: &[u8], discriminator: &[u8; 8]) -> (r: bool) requires bytes@.len() >= 8, ensures r == (bytes@.subrange(0, 8) != discriminator@) { unimplemented!() }
+//@ const pinocchio/utils/account_load.rs pub ACCOUNT_TYPE_OFFSET MULTISIG_ACCOUNT_LEN LAST_BYTE_OF_TOKEN_PROGRAM_ID LAST_BYTE_OF_TOKEN_2022_PROGRAM_ID
+pub use crate::authority_pino::address::{TOKEN_PROGRAM_ID, TOKEN_2022_PROGRAM_ID, WHIRLPOOL_PROGRAM_ID};
+//@ fn pinocchio/utils/account_load.rs check_owner_program -> r tags=C15
+    ensures r is Ok <==> account_info.owner_k == *program_id,
+//@ end
+//@ fn pinocchio/utils/account_load.rs check_discriminator -> r tags=C15
+    ensures r is Ok ==> account_info.data().len() >= 8 && account_info.data().subrange(0, 8) == discriminator@,
+//@ rewrite /array_ref!\[bytes, 0, 8\] != discriminator/ => /disc_ne(bytes, discriminator)/
+//@ end
+#[verifier::external_body]
+pub fn load_account_mut_unchecked<T: WhirlpoolProgramAccount>(account_info: &'_ AccountInfo) -> (r: Result<RefMut<'_, T>>)
+    ensures r matches Ok(x) ==> x.v == acct::<T>(*account_info) && x.v.reachable()
 { unimplemented!() }
+/// a program account is loaded only if it is owned by the whirlpool program and starts with the discriminator of the requested account type
+//@ fn pinocchio/utils/account_load.rs load_account_mut -> r tags=C15
+    ensures r matches Ok(x) ==> x.v == acct::<T>(*account_info) && account_info.owner_k == address::WHIRLPOOL_PROGRAM_ID && x.v.reachable()
+        && account_info.data().len() >= 8 && account_info.data().subrange(0, 8) == T::DISCRIMINATOR@,
+//@ end
 pub struct TokenProgramAccountWithExtensions<T> { pub v: T, pub is_token_2022: bool }
 impl<T> std::ops::Deref for TokenProgramAccountWithExtensions<T> { type Target = T; fn deref(&self) -> (r: &T) ensures *r == self.v { &self.v } }
-#[verifier::external_body]
-pub fn load_token_program_account<T>(account_info: &AccountInfo) -> (r: Result<TokenProgramAccountWithExtensions<T>>)
-    ensures r matches Ok(x) ==> x.v == acct::<T>(*account_info) && (account_info.owner_k == address::TOKEN_PROGRAM_ID || account_info.owner_k == address::TOKEN_2022_PROGRAM_ID)
-{ unimplemented!() }
+pub uninterp spec fn acct_of_bytes<T>(b: Seq<u8>) -> T;
+impl<T> TokenProgramAccountWithExtensions<T> {
+    #[verifier::external_body]
+    pub fn new(bytes: &[u8], is_token_2022: bool) -> (r: Self) ensures r.v == acct_of_bytes::<T>(bytes@), r.is_token_2022 == is_token_2022 { unimplemented!() }
+}
+/// C15: a token-program account is accepted only if it is owned by the SPL Token or the Token-2022 program, is not a 355-byte Multisig, is initialized, and
+/// either has exactly the base length of the requested type or carries that type's account-type byte
+pub open spec fn token_account_ok<T: TokenProgramAccount>(a: AccountInfo) -> bool {
+    let d = a.data();
+    &&& (a.owner_k == address::TOKEN_PROGRAM_ID || a.owner_k == address::TOKEN_2022_PROGRAM_ID)
+    &&& d.len() != 355
+    &&& d.len() > T::IS_INITIALIZED_OFFSET && d[T::IS_INITIALIZED_OFFSET as int] != 0
+    &&& (d.len() == T::BASE_STATE_LEN || (d.len() > 165 && d[165] == T::ACCOUNT_TYPE))
+}
+//@ fn pinocchio/utils/account_load.rs load_token_program_account -> r tags=C15
+    ensures r matches Ok(x) ==> token_account_ok::<T>(*account_info) && x.v == acct_of_bytes::<T>(account_info.data()),
+//@ rewrite /owner_program_id\[31\]/ => /owner_program_id.0[31]/
+//@ end
 #[verifier::external_body]
 pub fn pubkey_eq(a: &Pubkey, b: &Pubkey) -> (r: bool) ensures r == (*a == *b) { unimplemented!() }
 //@ fn pinocchio/utils/verify.rs verify_constraint -> r tags=C15
@@ -176,7 +213,7 @@ pub mod instruction {
 
 pub open spec fn wp(i: AccountInfo) -> MemoryMappedWhirlpool { acct::<MemoryMappedWhirlpool>(i) }
 pub open spec fn pos(i: AccountInfo) -> MemoryMappedPosition { acct::<MemoryMappedPosition>(i) }
-pub open spec fn tok(i: AccountInfo) -> MemoryMappedTokenAccount { acct::<MemoryMappedTokenAccount>(i) }
+pub open spec fn tok(i: AccountInfo) -> MemoryMappedTokenAccount { acct_of_bytes::<MemoryMappedTokenAccount>(i.data()) }
 /// C04: the position-authority rule on the labelled accounts
 pub open spec fn authority_ok(token_account: AccountInfo, authority: AccountInfo) -> bool {
     authority_rule(tok(token_account).owner_k(), tok(token_account).delegate_k(), tok(token_account).delegated(), authority.k, authority.signer)
@@ -351,12 +388,12 @@ pub open spec fn bta_method(d: instruction::IncreaseLiquidityByTokenAmountsV2) -
         r matches Ok(t) ==> (t.2 ==> new_range_increase_amount as int + t.1 as int <= token_max as int), //# C08 C16
         r matches Ok(t) ==> new_range_increase_amount as int <= token_max as int, //# C08
 //@ end
-//@ fn pinocchio/instructions/reposition_liquidity_v2.rs execute_token_delta_transfers -> r tags=C06,C15,C16
+//@ fn pinocchio/instructions/reposition_liquidity_v2.rs execute_token_delta_transfers -> r tags=C06,C15,C16 canary
     ensures r is Ok ==> (if is_token_a_transfer_from_owner { moved(token_owner_account_a.k, token_vault_a.k, token_a_delta) } else { moved(token_vault_a.k, token_owner_account_a.k, token_a_delta) })
                      && (if is_token_b_transfer_from_owner { moved(token_owner_account_b.k, token_vault_b.k, token_b_delta) } else { moved(token_vault_b.k, token_owner_account_b.k, token_b_delta) }),
 //@ end
 /// removing everything from the existing range: nothing to do for an empty position; otherwise both tick arrays must belong to the pool, the amounts are the rounded-down deltas
-//@ fn pinocchio/instructions/reposition_liquidity_v2.rs decrease_liquidity_from_existing_range -> r tags=C15,C08,C05
+//@ fn pinocchio/instructions/reposition_liquidity_v2.rs decrease_liquidity_from_existing_range -> r tags=C15,C08,C05 canary
     requires old(whirlpool).reachable(), old(position).reachable(),
     ensures
         r is Ok ==> final(position).view().whirlpool == old(position).view().whirlpool && final(position).view().position_mint == old(position).view().position_mint
@@ -369,7 +406,7 @@ pub open spec fn bta_method(d: instruction::IncreaseLiquidityByTokenAmountsV2) -
             && token_deltas_spec(old(whirlpool).tick_current_index_v() as int, old(whirlpool).sqrt_price_v() as int, old(position).view().tick_lower_index as int, old(position).view().tick_upper_index as int,
                 -(old(position).view().liquidity as int), *final(token_a_amount_out) as int, *final(token_b_amount_out) as int),
 //@ end
-//@ fn pinocchio/instructions/reposition_liquidity_v2.rs increase_liquidity_into_new_range -> r tags=C15,C08,C05
+//@ fn pinocchio/instructions/reposition_liquidity_v2.rs increase_liquidity_into_new_range -> r tags=C15,C08,C05 canary
     requires old(whirlpool).reachable(), old(position).reachable(),
     ensures
         r is Ok ==> final(position).view().whirlpool == old(position).view().whirlpool
@@ -413,5 +450,50 @@ pub open spec fn repo_method(d: instruction::RepositionLiquidityV2) -> (u128, u6
     }
 //@ inject at /^\{/
     let ghost old_data = data;
+//@ end
+
+// ------------------------------------------------------------------ reachability canaries (vacuity guard, see tools/run.py)
+/// reachability canary (must FAIL): the same body with the contract 'never succeeds'
+//@ fn pinocchio/utils/account_load.rs load_account_mut -> r as=reach_canary_load_account_mut tags=C15
+    ensures r is Err,
+//@ end
+/// reachability canary (must FAIL): the same body with the contract 'never succeeds'
+//@ fn pinocchio/utils/account_load.rs load_token_program_account -> r as=reach_canary_load_token_program_account tags=C15
+    ensures r is Err,
+//@ rewrite /owner_program_id\[31\]/ => /owner_program_id.0[31]/
+//@ end
+/// reachability canary (must FAIL): the same body with the contract 'never succeeds'
+//@ fn pinocchio/instructions/decrease_liquidity.rs handler -> r as=reach_canary_decrease_liquidity_handler tags=C15,C04,C18,C08
+    requires data.len() >= 8,
+    ensures r is Err,
+//@ end
+/// reachability canary (must FAIL): the same body with the contract 'never succeeds'
+//@ fn pinocchio/instructions/increase_liquidity.rs handler -> r as=reach_canary_increase_liquidity_handler tags=C15,C04,C08
+    requires data.len() >= 8,
+    ensures r is Err,
+//@ end
+/// reachability canary (must FAIL): the same body with the contract 'never succeeds'
+//@ fn pinocchio/instructions/decrease_liquidity_v2.rs handler -> r as=reach_canary_decrease_liquidity_v2_handler tags=C15,C04,C18,C08,C16
+    requires data.len() >= 8,
+    ensures r is Err,
+//@ end
+/// reachability canary (must FAIL): the same body with the contract 'never succeeds'
+//@ fn pinocchio/instructions/increase_liquidity_v2.rs handler -> r as=reach_canary_increase_liquidity_v2_handler tags=C15,C04,C08,C16
+    requires data.len() >= 8,
+    ensures r is Err,
+//@ end
+/// reachability canary (must FAIL): the same body with the contract 'never succeeds'
+//@ fn pinocchio/instructions/increase_liquidity_by_token_amounts_v2.rs handler -> r as=reach_canary_increase_liquidity_by_token_amounts_v2_handler tags=C15,C04,C08,C16
+    requires data.len() >= 8,
+    ensures r is Err,
+//@ end
+/// reachability canary (must FAIL): the same body with the contract 'never succeeds'
+//@ fn pinocchio/instructions/reposition_liquidity_v2.rs calculate_token_transfer_info -> r as=reach_canary_calculate_token_transfer_info tags=C08,C16
+    ensures r is Err,
+//@ end
+/// reachability canary (must FAIL): the same body with the contract 'never succeeds'
+//@ fn pinocchio/instructions/reposition_liquidity_v2.rs handler -> r as=reach_canary_reposition_liquidity_v2_handler tags=C15,C04,C18,C08,C16
+    requires data.len() >= 8,
+    ensures r is Err,
 //@ end
 }
